@@ -133,6 +133,10 @@ func genC20(r *Rand, tier string, i int) *h.Scenario {
 				cur[b] += nn
 			}
 		}
+		if r.Bool(0.08) {
+			// resume-able task: the start time of the average decorators is moved (not into the future)
+			ops = append(ops, h.Op{K: h.OpAvgAdjust, Bar: b, N: r.Int63n(spent + 1)})
+		}
 		if c.Refresh == h.RefManual && r.Bool(0.4) {
 			ops = append(ops, h.Op{K: h.OpRefresh})
 		}
@@ -292,6 +296,21 @@ func judgeC20(hi *Hist) []*Violation {
 		}
 		return -1
 	}
+	// DecoratorAverageAdjust moves the start of the average decorators of a bar
+	type adj struct {
+		inv, ret int
+		start    int64
+	}
+	adjusts := map[int][]adj{}
+	for _, op := range hi.Ops {
+		if op.Op.K == h.OpAvgAdjust {
+			r := op.Ret
+			if r < 0 {
+				r = len(hi.Log)
+			}
+			adjusts[op.Op.Bar] = append(adjusts[op.Op.Bar], adj{op.Inv, r, op.Op.N})
+		}
+	}
 	frozen := map[dk]string{}
 	for fi, f := range frames {
 		for _, g := range f.Groups {
@@ -315,6 +334,18 @@ func judgeC20(hi *Hist) []*Violation {
 					continue // the scenario's format does not fit the unit: not the library's problem
 				}
 				t0, hasT0 := born[k]
+				if spec.Kind == h.DecAvgSpeed || spec.Kind == h.DecAvgETA {
+					at := spyAt(fi, g.Bar)
+					for _, a := range adjusts[g.Bar] {
+						switch {
+						case at < 0 || (a.inv < at && a.ret > at):
+							hasT0 = false // adjustment in flight around this render
+						case a.ret < at:
+							t0 = a.start + 2
+							note("c20_adjusted_start_checked")
+						}
+					}
+				}
 				elapsedLo := time.Duration(spy.T - t0 - 2)
 				elapsedHi := time.Duration(spy.T - t0 + 24)
 				done := spy.Completed || spy.Aborted
